@@ -107,7 +107,9 @@ where
         for<'a> TransposeFrom<&'a BitDecomposed<Replicated<Boolean, B>>, Error = LengthError>,
     DZKPUpgraded<C>: ShardedContext,
 {
-    if input_rows.is_empty() {
+    // A shard without input rows still has to take part in the steps that involve all
+    // shards (shuffles, resharding, finalization), otherwise its siblings wait forever.
+    if input_rows.is_empty() && usize::from(ctx.shard_count()) == 1 {
         return Ok(vec![Replicated::ZERO; B]);
     }
 
